@@ -40,12 +40,22 @@ func runModeSwitch(r *Run, prop string) *Violation {
 		}
 	}
 	cfg := bisyncCfg(g, from)
+	if g.Choose("failoverbias", 2) == 1 {
+		cfg.FailoverBias = 7 // half of the histories include a fail-over of the source (+CONTINUE) before the switch
+	}
 	o := StreamOpts{MaxItems: 4 + g.Choose("items", 14), StartDB: 0, NoUnknown: true, OnlyDB0: true, TxnHeavy: g.Choose("txnheavy", 2) == 0}
+	if cfg.FailoverBias > 0 {
+		o.MaxItems += 12
+	}
 	st := GenStream(g, o)
-	ps, _ := runBisyncSim(r, prop, cfg, st, g.Choose("ncrashes", 3), -1)
+	ps, _ := runBisyncSim(r, prop, cfg, st, 1+g.Choose("ncrashes", 3), -1)
 	r.ResetSteps()
 	c := &c17sim{r: r, srv: ps.srv, prop: prop}
 	ids := []string{ps.runID}
+	if ps.prevID != "" { // the run included a fail-over: the source reports both ids
+		ids = ps.ids()
+		simrt.Probe("c17_modeswitch_after_failover")
+	}
 	slots := []uint16{0}
 	// the tool pins the namespace to its mode when it creates it, before anything is replayed: the marker is there
 	// a namespace written by an older release carries no mode field and the tool infers it from what it finds: drawn for
